@@ -288,3 +288,62 @@ PROPS["C06"] = dict(
              "fill-level-sweep-documents", "fill-level:final-size-within-8-bytes-of-a-power-of-two"],
     assumptions=["reference recogniser/parser; ASan sees writes past the (8-byte aligned) realloc block only"],
 )
+
+# ------------------------------------------------------------------------------------------------ C12
+PROPS["C12"] = dict(
+    title="The mutation API behaves like plain ordered containers",
+    rule=("histories of 20..120 (thorough 400) operations drawn from Set*/SetString(copy|const)/SetArray/SetObject/AddMember(copy|nocopy)/"
+          "RemoveMember/EraseMember(range)/MemberReserve/Reserve/PushBack/PopBack/Erase(pos|range)/Clear(+reuse)/assignment/"
+          "move-assign (from own sub-node, from a disjoint node)/Swap (disjoint, with own sub-node)/CopyFrom (disjoint node, side "
+          "document; copyString on/off)/CreateMap/DestroyMap at random targets anywhere in the tree, on the pool and the malloc/free "
+          "allocator; a quarter of the histories allow duplicate keys and never build maps; after EVERY operation the document is "
+          "read back through the accessor API (ordered compare with the lock-step model), Dump()+reference parser on a quarter of "
+          "the steps, and FindMember(view|ptr,len)/HasMember/operator[]/AtPointer are checked on a random object/path; ASan observes; "
+          "distinct = hash of the operation trace"),
+    runs=[
+        dict(name="asan-hsw", src="mutation_harness.cpp", cfg="asan-hsw", env=ASAN_NOLEAK_ENV, args=["--prop", "C12"]),
+        dict(name="asan-dyn", src="mutation_harness.cpp", cfg="asan-dyn", env=ASAN_NOLEAK_ENV, args=["--prop", "C12"]),
+    ],
+    require=["operations-checked", "op:CreateMap", "op:DestroyMap", "op:RemoveMember(tail)-while-map-exists", "op:erase-full-or-empty-range",
+             "op:growth-from-capacity-0", "op:move-assign-from-own-subnode", "op:Swap-with-own-subnode", "op:CopyFrom",
+             "histories-with-duplicate-keys(no-map)", "lookups-checked", "op:reserve-below-size", "op:Clear-then-reuse", "AtPointer-checked"],
+    assumptions=["model semantics taken from the property statement (RemoveMember moves the last member into the hole; first match for duplicate keys)",
+                 "histories respect the library's ownership rules (no CopyFrom between ancestor and descendant; raw Swap with a descendant only on the pool allocator)"],
+)
+
+# ------------------------------------------------------------------------------------------------ C13
+PROPS["C13"] = dict(
+    title="Every allocation is released exactly once; copies are independent",
+    rule=("C12's operation generator on a ledger allocator (kNeedFree, every block recorded) extended with Parse of valid and invalid "
+          "text, ParseOnDemand, document move construction/assignment, document Swap with a side document, deep copies kept alive "
+          "across all later events (their content is re-read after every step), destruction of copies, and scope exit at a random step; "
+          "oracles: ledger (foreign/double free at every step; no live block once the last owner is gone), ASan (use after free), LSan, "
+          "lock-step model; distinct = hash of the operation trace"),
+    runs=[
+        dict(name="asan-hsw", src="mutation_harness.cpp", cfg="asan-hsw", env=ASAN_ENV, args=["--prop", "C13"]),
+    ],
+    require=["operations-checked", "op:document-move", "op:document-swap", "op:Parse(valid)", "op:Parse(invalid)", "op:ParseOnDemand",
+             "copy-independence-checks", "ledger-quiescent-checks", "destruction-at-random-step", "op:CreateMap", "op:CopyFrom"],
+    assumptions=["the ledger sees allocator traffic only; the parser's node stack and write buffers use malloc directly and are covered by ASan/LSan",
+                 "ParseSchema histories are exercised by the C19 check (ledger + ASan there)"],
+)
+
+# ------------------------------------------------------------------------------------------------ C18
+PROPS["C18"] = dict(
+    title="Document equality is JSON value equality",
+    rule=("triples (a, b=variant(a), c=variant(b)) of generated duplicate-free values; variants: identical, members permuted at every depth, "
+          "one leaf / key / number kind (1 vs 1.0, -0.0 vs 0.0, 2^63) / string length / container length changed, array reordered; each "
+          "value is built through a random history (copied/const/mixed strings and keys, const strings sharing an address, reserved "
+          "capacity, lookup map, node overwritten by other values first, nulls left behind by moves) on the pool and on the malloc "
+          "allocator; checked: reflexive, symmetric, != is the negation, == iff the model values are equal as JSON values with number "
+          "kinds, transitivity on the triple, across allocator types, deep copy (both allocator types) and Parse(Dump()) equal the "
+          "original; distinct = hash of the value pair"),
+    runs=[
+        dict(name="asan-hsw", src="mutation_harness.cpp", cfg="asan-hsw", env=ASAN_NOLEAK_ENV, args=["--prop", "C18"]),
+        dict(name="prod-dyn", src="mutation_harness.cpp", cfg="prod-dyn", env={}, args=["--prop", "C18"]),
+    ],
+    require=["pairs:model-equal", "pairs:model-different", "triples(transitivity)", "variant:member-permuted", "variant:number-kind-changed",
+             "pairs:across-allocator-types", "history:null-from-moved-from-node", "history:const-strings-sharing-an-address",
+             "history:lookup-map-present", "deep-copy/parse-of-dump-checks"],
+    assumptions=["model equality jm::equal_unordered (objects as key->value maps, numbers by kind and bits)"],
+)
